@@ -390,6 +390,134 @@ def no_zero_divisors(env, x, y, p):
              'Z_p has no zero divisors (p prime, checked by the harness), instantiated for the masked zero tests')
 
 
+class _AwList(list):
+    def __await__(self):
+        return list(self)
+        yield
+
+
+def install_ideal_bits(env, sim):
+    """m-party ideal functionality for random_bits: a fresh degree-t sharing of a fresh bit, the same variables at every
+    party (keyed by the per-party call counter, which is schedule independent for these straight-line programs)."""
+    t = sim.t
+    for party in sim.parties:
+        mpc = party.mpc
+        cnt = [0]
+
+        def random_bits(sftype, n, signed=False, _mpc=mpc, _pid=party.pid, _cnt=cnt):
+            _cnt[0] += 1
+            call = _cnt[0]
+            issec = isinstance(sftype, type) and issubclass(sftype, _mpc.SecureObject)
+            field = sftype.field if issec else sftype
+            f = getattr(sftype, 'frac_length', 0) if issec else 0
+            p = field.modulus
+            out = []
+            for idx in range(n):
+                b = env.fresh(f'gbit{call}_{idx}', 0, 2)
+                v = (2 * b - 1 if signed else b) * (1 << f)
+                y = 0
+                for j in range(t):
+                    c = env.fresh(f'gbc{call}_{idx}_{j}', 0, p)
+                    y = (y + c) * (_pid + 1)
+                out.append(field(y + v))
+            if issec:
+                out = [sftype(a, True) if f else sftype(a) for a in out]
+            return _AwList(out)
+        mpc.random_bits = random_bits
+    env.stubs.add('Runtime.random_bits (m parties) -> fresh degree-t sharing of a fresh bit, same variables at every party (ideal functionality; C33)')
+
+
+# ------------------------------------------------------------------ glue corpus: L2 protocols run with m parties
+
+async def g_lsb(party, X, api):
+    mpc = api.mpc
+    a, b = api.inp(X, 0), api.inp(X, 1)
+    y = mpc.lsb(a + b)
+    return {'y': await api.out(y), 's_y': await api.share(y)}
+
+
+def og_lsb(X):
+    return {'y': (X[0] + X[1]) % 2, 's_y': (X[0] + X[1]) % 2, '_range': [X[0] + X[1]]}
+
+
+async def g_tz(party, X, api):
+    mpc = api.mpc
+    a = api.inp(X, 0)
+    bits = mpc.trailing_zeros(a)
+    out = await mpc.output(bits, raw=True)
+    return {f'b{i}': ('out', v.value) for i, v in enumerate(out)}
+
+
+def og_tz(X):
+    return {'_tz': X[0]}
+
+
+async def g_to_bits(party, X, api):
+    mpc = api.mpc
+    a, b = api.inp(X, 0), api.inp(X, 1)
+    bits = mpc.to_bits(a + b)
+    out = await mpc.output(bits, raw=True)
+    sh = await mpc.gather(bits[0])
+    return dict({f'b{i}': ('out', v.value) for i, v in enumerate(out)}, s_b0=('share', sh.value))
+
+
+def og_to_bits(X):
+    return {'_bits': X[0] + X[1], '_range': [X[0] + X[1]]}
+
+
+GLUE = {'lsb': (g_lsb, og_lsb), 'tz': (g_tz, og_tz), 'to_bits': (g_to_bits, og_to_bits)}
+
+
+def run_glue(env, m, t, prss, name, l):
+    """L2 protocol `name` executed by m parties (real output/_reshare/_random/mul), random_bits ideal."""
+    body, oracle = GLUE[name]
+    h = 1 << (l - 1)
+    X = [env.fresh(f'x{k}', -h, h) for k in range(2)]
+    want = oracle(X)
+    for w in want.get('_range', []):
+        env.assume((w >= -h) & (w < h), note='values stay within l bits')
+    from vf import symx
+    if env.mode == 'sym':
+        symx.FORK_MOD_MAX[0] = 1 << l
+    sim = simnet.Sim(env, m, t, ['-K', '30'] + ([] if prss else ['--no-prss']))
+    install_ideal_bits(env, sim)
+    apis = {}
+
+    async def prog(party):
+        api = Api(env, party, m, t, l)
+        apis[party.pid] = api
+        return await body(party, X, api)
+    sim.start(prog)
+    results = guarded_run(env, sim)
+    rt = sim.parties[0].mpc
+    R = type(rt)
+    env.encoded(R.lsb, R.trailing_zeros, R.to_bits, R.add_bits, R._random, R._randoms, R.output, R._reshare)
+    run = dict(X=X, want={k: v for k, v in want.items() if not k.startswith('_')}, results=results, sim=sim, p=apis[0].p, m=m, t=t, l=l)
+    if results is None:
+        return run
+    p = run['p']
+    with symx.no_fork():
+        if '_tz' in want:
+            a = want['_tz']
+            u = a % (1 << l)
+            for pid in range(m):
+                lower_zero = True
+                for i in range(l):
+                    v = kit.signed(env, results[pid][f'b{i}'][1], p)
+                    env.check(f'tz[{i}]@{pid}', env.implies(lower_zero, v == (u // (1 << i)) % 2))
+                    lower_zero = env.all([lower_zero, (u // (1 << i)) % 2 == 0])
+        if '_bits' in want:
+            a = want['_bits']
+            for pid in range(m):
+                s = 0
+                for i in range(l):
+                    v = kit.signed(env, results[pid][f'b{i}'][1], p)
+                    env.check(f'bit[{i}]in01@{pid}', (v == 0) | (v == 1))
+                    s = s + v * (1 << i)
+                env.eq(f'bits@{pid}', s, a % (1 << l))
+    return run
+
+
 def guarded_run(env, sim):
     """Run the simulation; a deadlock or an exception of the real code becomes a failed obligation
     (so that it is replayed and reported), never a harness error."""
